@@ -23,6 +23,7 @@ def toGeoJSON : Geom F → Except Err (Geometry F)
   | .multiLineString v => .ok ⟨"MultiLineString", .c3 (pointssCoordinates v)⟩
   | .polygon v => .ok ⟨"Polygon", .c3 (pointssCoordinates v)⟩
   | .multiPolygon v => .ok ⟨"MultiPolygon", .c4 (pointsssCoordinates v)⟩
+  | .nil => .error .panicNil
   | _ => .error .unsupported
 
 def typeKey : String := "type"
